@@ -1,4 +1,89 @@
+import LdarModel.Model.Gen
+import LdarModel.Model.Units
+import LdarModel.Generated.Units
+import LdarModel.Generated.EmisSeed
 import LdarModel.Driver.Proto
-/- driver stub: replaced by the component's real driver -/
-open LdarModel.Proto
-def main : IO Unit := runDriver (fun (_ : Unit) (_ : List String) => ((), "bad-op")) ()
+/-
+Driver for the emission generator and the unit converter (core Lean only).
+Unit / substance names are sent with `_` in place of blanks ("cubic_feet"); rationals as two
+integer tokens `num den`; replies `num/den` or `none` (KeyError / ZeroDivisionError).
+
+  gen <dur> <multi> <preEnabled> <preBits> <simBits>       -> [[start,id],...]   (stored pending list)
+  conv <metric> <increment> <n> <d>                         -> gas_convert(q, metric, increment)
+  gas <n> <d> <inSub> <inMetric> <inInc> <outSub> <outMetric> <outInc>
+      <ng n> <ng d> <T n> <T d> <P n> <P d> <tempUnit> <presUnit> <gwp n> <gwp d>   -> gas_convert(**all)
+  uconv <metric> <increment> <n> <d>                        -> EmissionsSource.unit_conversion(q)
+  sample <metric> <increment> <sn> <sd> <cn> <cd>           -> EmissionsSourceSample rate for that pick
+  dist <metric> <increment> <dn> <dd> <cn> <cd>             -> EmissionsSourceDist rate for that draw
+  tounit <metric> <increment> <n> <d>                       -> the rate written in that unit
+  seeds <old> <draws> <nSim>                                -> seed list of gen_seed_emis
+  seedrange                                                 -> <low> <high>
+  names                                                     -> in=[..] out=[..] inc=[..] sub=[..] temp=[..] pres=[..]
+-/
+open LdarModel LdarModel.Gen LdarModel.Units LdarModel.Proto
+
+def tbl : Table := LdarModel.Generated.Units.table
+
+def unName (s : String) : String := s.map (fun c => if c = '_' then ' ' else c)
+def enName (s : String) : String := s.map (fun c => if c = ' ' then '_' else c)
+
+def rat? (n d : String) : Option Rat := do
+  let n ← int? n
+  let d ← nat? d
+  if d = 0 then none else some (mkRat n d)
+
+def showRat (r : Rat) : String := s!"{r.num}/{r.den}"
+def showORat : Option Rat → String
+  | none => "none"
+  | some r => showRat r
+
+def showEm (e : Em) : String := s!"[{e.start},{e.id}]"
+
+def step (_ : Unit) (toks : List String) : Unit × String :=
+  match toks with
+  | ["gen", dur, multi, preE, pre, sim] =>
+    match nat? dur, bool? multi, bool? preE, boolList? pre, boolList? sim with
+    | some dur, some multi, some preE, some pre, some sim =>
+      ((), showList showEm (generate pre sim dur multi preE))
+    | _, _, _, _, _ => ((), "bad-op")
+  | ["conv", m, i, n, d] =>
+    match rat? n d with
+    | some q => ((), showORat (convertD tbl (unName m) (unName i) q))
+    | none => ((), "bad-op")
+  | ["uconv", m, i, n, d] =>
+    match rat? n d with
+    | some q => ((), showORat (unitConversion tbl (unName m) (unName i) q))
+    | none => ((), "bad-op")
+  | ["tounit", m, i, n, d] =>
+    match rat? n d with
+    | some q => ((), showORat (toUnit (unName m) (unName i) q))
+    | none => ((), "bad-op")
+  | ["sample", m, i, sn, sd, cn, cd] =>
+    match rat? sn sd, rat? cn cd with
+    | some s, some c => ((), showORat (sampleRate tbl (unName m) (unName i) s c))
+    | _, _ => ((), "bad-op")
+  | ["dist", m, i, dn, dd, cn, cd] =>
+    match rat? dn dd, rat? cn cd with
+    | some x, some c => ((), showORat (distRate tbl (unName m) (unName i) x c))
+    | _, _ => ((), "bad-op")
+  | ["gas", qn, qd, inSub, inM, inI, outSub, outM, outI, ngn, ngd, tn, td, pn, pd, tu, pu, gn, gd] =>
+    match rat? qn qd, rat? ngn ngd, rat? tn td, rat? pn pd, rat? gn gd with
+    | some q, some ng, some t, some p, some g =>
+      let a : Args := { q := q, inSubstance := unName inSub, inMetric := unName inM,
+                        inIncrement := unName inI, outSubstance := unName outSub,
+                        outMetric := unName outM, outIncrement := unName outI, ngComp := ng,
+                        t := t, p := p, tempUnit := unName tu, presUnit := unName pu, gwp := g }
+      ((), showORat (gasConvert tbl a))
+    | _, _, _, _, _ => ((), "bad-op")
+  | ["seeds", old, draws, n] =>
+    match natList? old, natList? draws, nat? n with
+    | some old, some draws, some n => ((), showList toString (genSeeds old draws n))
+    | _, _, _ => ((), "bad-op")
+  | ["seedrange"] =>
+    ((), s!"{LdarModel.Generated.EmisSeed.seedLow} {LdarModel.Generated.EmisSeed.seedHigh}")
+  | ["names"] =>
+    let f := fun (l : List String) => showList enName l
+    ((), s!"in={f (tbl.inMetrics.map (·.name))} out={f (tbl.outMetrics.map (·.name))} inc={f (tbl.increments.map (·.1))} sub={f (tbl.substances.map (·.1))} temp={f (tbl.tempUnits.map (·.name))} pres={f (tbl.presUnits.map (·.name))}")
+  | _ => ((), "bad-op")
+
+def main : IO Unit := runDriver step ()
